@@ -69,6 +69,8 @@ def tla_cfg(sc, status_texts=None):
     cfg["access_texts"] = [[k, cps(v)] for k, v in EXTERNAL_ACCESS.items() if isinstance(k, int)]
     cfg["fw"] = (sc["target"].get("identity") or {}).get("rev_major", 0)
     cfg["all_programs"] = 1 if sc["driver"].get("init_program_tags", True) else 0
+    if sc.get("slc"):
+        cfg["slc"] = [{"file": int(k), "type": v["type"], "words": list(v["words"])} for k, v in sorted(sc["slc"].items(), key=lambda kv: int(kv[0]))]
     if sc.get("project"):
         cfg["project"], cfg["mem"] = tla_project(sc["project"], sc["mem"])
     return cfg
